@@ -110,7 +110,9 @@ Definition e2e_mapping_ok (prm : mparams) (n : N) (m : N * list N * list N) : bo
                                    (e2e_chunks prm len))
               present).
 
-(* Recorded finding C19-shared-tail-beyond-eof (class 1): `tail` lists the needles the process wrote, through a
+(* Former finding C19-shared-tail-beyond-eof (class 1), repaired by /repo 1edd3f5: the harness now passes an
+   empty `tail`, so `corr` and `spec` both demand every needle and the class is never reported.  Kept for the
+   record of what the class was: `tail` listed the needles the process wrote, through a
    shared mapping of a file, at offsets not wholly inside the file (the last page of the mapping extends beyond
    the end of the file).  The model follows the code: such pages are read from the file and the bytes beyond
    its end are taken as zeros, so these needles are not in what the scan reads; the property demands them. *)
